@@ -93,6 +93,10 @@ func reentrant(c *core.Ctx) {
 
 func Run(c *core.Ctx) {
 	defer reentrant(c)
+	withViews(c, run)
+}
+
+func run(c *core.Ctx) {
 	ref := jonesTable()
 	e := &env{c: c}
 	for _, p := range [][2]string{{pkgDigest, "digest"}, {pkgCupIn, "cupcake-local"}, {pkgCupMod, "cupcake"}} {
@@ -277,6 +281,65 @@ func origin(info *types.Info, root ast.Node, e ast.Expr) ast.Expr {
 	return e
 }
 
+// deadLits: function literals bound to a local that is never used again except
+// in `_ = f` (what is left of a closure argument once the calls through it were
+// expanded in place).
+func deadLits(info *types.Info, body ast.Node) map[*ast.FuncLit]bool {
+	out := map[*ast.FuncLit]bool{}
+	bind := func(o types.Object, v ast.Expr) {
+		lit, ok := ast.Unparen(v).(*ast.FuncLit)
+		if !ok || o == nil {
+			return
+		}
+		live := false
+		var stack []ast.Node
+		ast.Inspect(body, func(n ast.Node) bool {
+			if n == nil {
+				stack = stack[:len(stack)-1]
+				return true
+			}
+			stack = append(stack, n)
+			if id, isId := n.(*ast.Ident); isId && info.Uses[id] == o {
+				blank := false
+				if len(stack) >= 2 {
+					if as, isAs := stack[len(stack)-2].(*ast.AssignStmt); isAs && len(as.Lhs) == 1 && len(as.Rhs) == 1 && as.Rhs[0] == ast.Expr(id) {
+						if b, isB := as.Lhs[0].(*ast.Ident); isB && b.Name == "_" {
+							blank = true
+						}
+					}
+				}
+				if !blank {
+					live = true
+				}
+			}
+			return true
+		})
+		if !live {
+			out[lit] = true
+		}
+	}
+	ast.Inspect(body, func(n ast.Node) bool {
+		switch s := n.(type) {
+		case *ast.AssignStmt:
+			if len(s.Lhs) == len(s.Rhs) && s.Tok == token.DEFINE {
+				for i, l := range s.Lhs {
+					if id, ok := l.(*ast.Ident); ok {
+						bind(info.Defs[id], s.Rhs[i])
+					}
+				}
+			}
+		case *ast.ValueSpec:
+			if len(s.Names) == len(s.Values) {
+				for i, nm := range s.Names {
+					bind(info.Defs[nm], s.Values[i])
+				}
+			}
+		}
+		return true
+	})
+	return out
+}
+
 // ---------------------------------------------------------------------------
 // R2 step, R1 table
 
@@ -286,7 +349,11 @@ func step(c *core.Ctx, cp *crcPkg) *types.Var {
 	var idx *ast.IndexExpr
 	count := 0
 	for _, fn := range funcsOf(cp.pk) {
+		dead := deadLits(info, fn.Decl.Body)
 		ast.Inspect(fn.Decl.Body, func(n ast.Node) bool {
+			if lit, isLit := n.(*ast.FuncLit); isLit && dead[lit] {
+				return false // never called: what it contains is not executed
+			}
 			s, ok := n.(*ast.AssignStmt)
 			if !ok {
 				return true
@@ -417,6 +484,14 @@ func stepLoop(c *core.Ctx, fn *core.Fn, name string, as *ast.AssignStmt, b ast.E
 			}
 		}
 		return false
+	}
+	// the byte may be named first inside the loop (`b := p[i]`), as left by expanding a step(acc, b) helper
+	if o := objOf(info, b); o != nil && loop != nil {
+		if rhs, other := defsOf(info, loop, o); len(rhs) == 1 && other == 0 && rhs[0] != nil {
+			if r2, _ := defsOf(info, fn.Decl.Body, o); len(r2) == 1 {
+				b = strip(info, rhs[0])
+			}
+		}
 	}
 	switch l := loop.(type) {
 	case *ast.ForStmt:
